@@ -89,8 +89,9 @@ class MPUChunk:
         self.observed: List[Tuple[int, Any]] = [] if observed is None else observed
         self.is_final = is_final
         self.lhs_keep = lhs_keep
-        # if supplying data must also supply observed
-        assert data is None or (observed is not None and len(observed) > 0)
+        # if supplying data must also supply observed (merging partitions without any chunk
+        # supplies neither)
+        assert not data or (observed is not None and len(observed) > 0)
 
     def __dask_tokenize__(self):
         return (
